@@ -23,8 +23,10 @@ BUDGET = {'quick': 30, 'thorough': 400}
 
 DTN_DESTS = ['dtn://n1/app', 'dtn://n1/other/x', 'dtn://n2/app', 'dtn://far/app', 'dtn://far/deep/er', 'dtn://nowhere/']
 IPN_DESTS = ['ipn:5.1', 'ipn:5.7', 'ipn:6.1', 'ipn:77.1', 'ipn:77.22', 'ipn:9.9']
-DTN_PATS = ['^dtn://n1/.*$', '^dtn://n1/app$', '^dtn://far/.*$', '^dtn://far/app$', '^dtn://n2/.*$', '^dtn://.*$', '^.*$']
-IPN_PATS = [r'^ipn:5\..*$', r'^ipn:5\.1$', r'^ipn:77\..*$', r'^ipn:77\.1$', r'^ipn:6\..*$', r'^ipn:.*$', '^.*$']
+# anchored patterns and, as in re.match(), patterns that only describe a prefix of the destination
+DTN_PATS = ['^dtn://n1/.*$', '^dtn://n1/app$', '^dtn://far/.*$', '^dtn://far/app$', '^dtn://n2/.*$', '^dtn://.*$', '^.*$',
+            'dtn://n1/', 'dtn://far', '^dtn://n1/o']
+IPN_PATS = [r'^ipn:5\..*$', r'^ipn:5\.1$', r'^ipn:77\..*$', r'^ipn:77\.1$', r'^ipn:6\..*$', r'^ipn:.*$', '^.*$', r'ipn:5\.', 'ipn:77', r'^ipn:6\.']
 
 
 def gen(ch, tier):
